@@ -337,6 +337,25 @@ def _d3(chk, fb):
                                     "%s (ids ever issued) is compared with the count '%s': after any deletion the two differ although the structure is intact" % (x["member"]["name"], ot),
                                     witness={"history": "create three nodes, delete one, ask the predicate"})
                         continue
+                # ... and only move forward: a plain assignment (other than the member-wise copy of another graph's counter) is made
+                # under a test that the new value is not below the counter, or through std::max with the counter itself
+                if par is not None and par["k"] == "BinaryOperator" and par.get("op") == "=" and strip(kids(par)[0]) is x:
+                    rhs = strip(kids(par)[1])
+                    nm = x["member"]["name"]
+                    if rhs["k"] == "MemberExpr" and rhs["member"]["name"] == nm and not rhs["member"].get("this"):
+                        chk.proved("D4", f.key, "allocator-use:" + nm, f.loc(x), "copy of another graph's counter")
+                        continue
+                    if is_call(rhs) and rhs["callee"]["name"] == "max" and any(nm in render(a) for a in f.args(rhs)):
+                        chk.proved("D4", f.key, "allocator-forward:" + nm, f.loc(par), "assigned the maximum of itself and the new value")
+                        continue
+                    okg, _p = e1.guarded_by(f.cfg, f.cfg.stmt_block(par), lambda facts: any(nm in t_ and any(op_ in t_ for op_ in (" < ", " <= ", " > ", " >= ")) for t_, tr_, _ in facts))
+                    if okg:
+                        chk.proved("D4", f.key, "allocator-forward:" + nm, f.loc(par), "assignment made under a comparison with the counter")
+                    else:
+                        chk.refuted("D4", f.key, "allocator-forward:" + nm, f.loc(par),
+                                    "'%s' sets the id counter without comparing it with the new value: a value below the current counter moves it backwards and the next automatic id is one that is still in use (two elements then share an id)" % render(par)[:70],
+                                    witness={"history": "ids 0, 1, 2 issued; an explicit id 0 is re-used; the next automatic id is 1, still in use"})
+                    continue
                 chk.proved("D4", f.key, "allocator-use:" + x["member"]["name"], f.loc(x), "allocation / copy of the id counter")
     chk.floor("D4", "uses of the id allocators", m, 4)
 
@@ -346,7 +365,7 @@ def run(chk, fb, tier):
                    "the derived invalidator overrides the base virtual and clears isValid_; isValid_ becomes true only from isTree()/isDA()")
     chk.rule("D2", "nothing reachable from rootAt on the graph itself erases from edgeStructure_, calls notifyDeletedEdges or increments highestEdgeID_; switchNodes rewrites the same edge id")
     chk.rule("D3", "a GlobalGraph member that writes edgeStructure_[e] = (x, y) itself writes forward[x][y] = e and backward[y][x] = e in nodeStructure_ (the convention of the link helpers), never the reverse")
-    chk.rule("D4", "highestNodeID_/highestEdgeID_ count ids ever issued: they are not compared with a container size or element count")
+    chk.rule("D4", "highestNodeID_/highestEdgeID_ count ids ever issued: they are not compared with a container size or element count, and an assignment to one (member-wise copy excepted) is made under a comparison with its current value or through std::max")
     _d1(chk, fb)
     _d2(chk, fb)
     _d3(chk, fb)
